@@ -12,6 +12,9 @@ from copy import deepcopy
 from typing import Any
 
 from exabgp.bgp.message.update.nlri import NLRI
+from exabgp.bgp.message.update.nlri.empty import Empty
+from exabgp.bgp.message.update.attribute import Attribute
+from exabgp.bgp.message.update.collection import validate_announce_nlri
 from exabgp.bgp.neighbor import Neighbor
 from exabgp.bgp.neighbor.capability import GracefulRestartConfig
 from exabgp.configuration.core import Error, Parser, Scope, Section
@@ -638,6 +641,15 @@ class ParseNeighbor(Section):
                         *route.nlri.family().afi_safi()
                     ),
                 )
+
+        # whatever section a route came from (static, announce, a template): one which cannot be announced
+        # would raise in every session of this neighbor when its UPDATE is built
+        for route in neighbor.routes:
+            if Attribute.CODE.INTERNAL_WITHDRAW in route.attributes or isinstance(route.nlri, Empty):
+                continue
+            route_error = validate_announce_nlri(route.nlri, route.nexthop)
+            if route_error:
+                return self.error.set(route_error)
 
         # create one neighbor object per family for multisession
         # NOTE: deepcopy per family is memory-intensive but required for multi-session
